@@ -140,7 +140,7 @@ def one(mut, args):
         if args.baseline:
             env2 = dict(os.environ, MPLBACKEND="Agg")
             rc2, out2 = run("cd %s && /venv/bin/python -m pytest -q -p no:cacheprovider --timeout=900 "
-                            "--continue-on-collection-errors -x --deselect test/algo/test_mapping.py::TestAlgoMappingMethods::testMapOn "
+                            "--continue-on-collection-errors "
                             "--junitxml=%s/junit.xml >/dev/null 2>&1; /venv/bin/python %s/tools/baseline_cmp.py %s/junit.xml"
                             % (d, d, HERE, d), env2)
             rec["suite_green"] = rc2 == 0
